@@ -212,6 +212,17 @@ func FirstCalls() []fw.Call {
 			return module.PseudoVersion("v1", base, t0, "abcdef123456")
 		}})
 	}
+	// inputs whose internal representation is all zeros (what an unset cache slot or counter looks like): the
+	// first second of the Unix epoch, in UTC and elsewhere, and the zero time
+	for i, tz := range []time.Time{time.Unix(0, 0).UTC(), time.Unix(0, 500000000).In(time.FixedZone("", -5*3600)), {}} {
+		tz := tz
+		out = append(out, fw.Call{Name: fmt.Sprintf("PseudoVersion(zero-like time %d)", i), F: func() string {
+			a := module.PseudoVersion("v1", "v1.2.3", tz, "abcdef123456")
+			b := module.PseudoVersion("", "", tz, "0")
+			ta, ea := module.PseudoVersionTime(a)
+			return fmt.Sprint(a, b, module.IsPseudoVersion(a), module.IsPseudoVersion(b), ta.UTC(), ea)
+		}})
+	}
 	for _, v := range []string{"v0.0.0-20190304030607-abcdef123456", "v1.2.4-0.20190304030607-abcdef123456", "v1.2.3-pre.0.20190304030607-abcdef123456", "v1.2.3"} {
 		v := v
 		out = append(out, fw.Call{Name: "accessors(" + v + ")", F: func() string {
